@@ -2,7 +2,7 @@
 From Coq Require Import Permutation.
 From Cctp Require Import Lib.Bytes Lib.SMap Lib.Bech32.
 From Cctp Require Import Model.Codec Model.State Model.Ledger Model.Handlers Model.Chain Model.Genesis.
-From Cctp Require Import Proofs.MonadFacts Proofs.StoreFacts Proofs.GenesisFacts.
+From Cctp Require Import Proofs.MonadFacts Proofs.StoreFacts Proofs.GenesisFacts Proofs.ExportFacts.
 
 (* Validation rejects any genesis in which two entries of a keyed list would occupy the same store key:
    an accepted genesis has pairwise distinct keys in each of the five lists, so initialisation never
@@ -49,6 +49,20 @@ Proof.
   - subst s. apply exportable_run. cbn. exact (exportable_init g s0 I).
 Qed.
 
+(* Every export of a state reachable from a validated, initialised genesis passes validation again: the role slots
+   only ever receive syntactically valid addresses, and a well-formed store exports lists with pairwise distinct keys. *)
+Theorem C17_exports_validate : forall e g s0 h lg,
+  validate e g = true -> init_genesis g = Some s0 ->
+  let s := c_st (run e {| c_st := s0; c_lg := lg |} h) in
+  exists g', export_genesis s = Some g' /\ validate e g' = true.
+Proof.
+  intros e g s0 h lg V I s.
+  assert (store_wf s) as W by (subst s; apply wf_run; cbn; exact (wf_init g s0 I)).
+  assert (exportable s) as X by (subst s; apply exportable_run; cbn; exact (exportable_init g s0 I)).
+  assert (roles_valid e s) as R by (subst s; apply valid_run; cbn; exact (valid_init e g s0 V I)).
+  destruct (init_export s W X) as (g'&E&_). exists g'. split; [exact E|]. exact (export_validates e s g' W X R E).
+Qed.
+
 (* the counterexample to the full statement (known finding: pending owner not exported) *)
 Definition tiny_store : store :=
   {| owner := Some [x61]; pending_owner := Some [x62]; attester_manager := Some [x61]; pauser := Some [x61];
@@ -69,4 +83,5 @@ Print Assumptions C17_validation_rejects_colliding_keys.
 Print Assumptions C17_export_after_init.
 Print Assumptions C17_import_of_export_partial.
 Print Assumptions C17_import_of_export_reachable.
+Print Assumptions C17_exports_validate.
 Print Assumptions C17_pending_owner_is_lost_refuted.
